@@ -314,6 +314,52 @@ def extra_checks(ctx):
             break
     res.append({'name': f'{len(recs)} synthetic canonical records (all name shapes) reproduced in columns 1-66 and 77-78', 'ok': bad is None and len(out) == len(recs),
                 'case': bad, 'detail': 'a canonical ATOM record is not reproduced unchanged'})
+    # file export: exportpdb writes every line followed by a newline; appending a second export keeps the records apart
+    import tempfile
+    d = ctx.tmpdir()
+    bad = None
+    nfiles = 0
+    for k in range(ctx.scale(12, 120)):
+        rows = [gen_row(rng) for _ in range(rng.randint(1, 6))]
+        rows = [r for r in rows if r[4] != '' and all(-9999999.4 < v < 99999999.4 for v in r[7:10])]
+        if not rows:
+            continue
+        for i, r in enumerate(rows):
+            r[4] = 'AB'[i % 2]
+        db = pdb2sql([DUMMY] * len(rows))
+        db.update(COLS, [r[:13] for r in rows])
+        fn = os.path.join(d, 'exp_%d.pdb' % k)
+        lines_all = db.sql2pdb()
+        db.exportpdb(fn)
+        want = ''.join(l + '\n' for l in lines_all)
+        steps = [('exportpdb', want)]
+        for sel in ({'chainID': 'A'}, {'chainID': 'B'}, {}):
+            if rng.random() < 0.7:
+                more = db.sql2pdb(**sel)
+                db.exportpdb(fn, append=True, **sel)
+                want += ''.join(l + '\n' for l in more)
+                steps.append(('append %s' % sel, want))
+        got = open(fn).read()
+        nfiles += 1
+        if got != want:
+            bad = {'rows': [row_json(r + [0]) for r in rows], 'steps': [s_[0] for s_ in steps], 'file': got[:600], 'expected': want[:600]}
+            break
+        if any(len(l) != 80 for l in got.split('\n')[:-1]):
+            bad = {'rows': [row_json(r + [0]) for r in rows], 'why': 'a line of the exported file is not 80 columns', 'file': got[:600]}
+            break
+        try:
+            back = pdb2sql(fn)
+            n_back = len(back.get('serial'))
+            back._close()
+        except Exception as e:
+            n_back = exc_tag(e)
+        if n_back != want.count('\n'):
+            bad = {'rows': [row_json(r + [0]) for r in rows], 'why': f're-reading the exported file gives {n_back} rows for {want.count(chr(10))} records'}
+            break
+        db._close()
+        os.remove(fn)
+    res.append({'name': f'{nfiles} exported files (exportpdb, then appended exports of sub-selections): one 80-column record per line, re-readable',
+                'ok': bad is None, 'case': bad, 'detail': 'the exported file is not the sequence of exported records, one per line'})
     root = '/repo/test/pdb'
     files = [os.path.join(root, f) for f in sorted(os.listdir(root)) if f.endswith('.pdb')]
     sub = os.path.join(root, '1AK4')
